@@ -63,12 +63,21 @@ func CheckTestOnly(
 		// same type from being detected. See case statements below for implementation.
 		reportedTypes := make(map[string]bool)
 
+		// The receiver of a method is not a use of its type: an ordinary method of a @testonly
+		// type (a mock or spy implementing a production interface) is legitimate
+		receiverFields := make(map[*ast.Field]bool)
+
 		ast.Inspect(file, func(n ast.Node) bool {
 			switch node := n.(type) {
 			case *ast.FuncDecl:
 				// Check if this function is @testonly - if so, skip checking its body
 				if isInTestOnlyContext(&context, node) {
 					return false // Don't inspect the body of @testonly functions
+				}
+				if node.Recv != nil {
+					for _, field := range node.Recv.List {
+						receiverFields[field] = true
+					}
 				}
 				return true
 
@@ -110,6 +119,9 @@ func CheckTestOnly(
 				}
 
 			case *ast.Field:
+				if receiverFields[node] {
+					return true
+				}
 				// Check struct fields and function parameters
 				if v := findTypeUsageViolation(&context, node.Type, node.Pos()); v != nil {
 					// Check if this violation should be ignored before marking type as reported
